@@ -275,3 +275,30 @@ def aggregates(mir, adt, variant=None):
             if s['k'] == 'assign' and s['rv']['k'] == 'agg' and s['rv'].get('ak') == 'adt' and s['rv']['adt'] == adt:
                 if variant is None or s['rv']['v'] == variant:
                     yield b, i, j, s
+
+
+def ctor_calls(mir, adt, variant):
+    """tuple-variant constructors used as functions: yields (body, bb, term, 'call'|'value').
+    'call'  : `Adt::Variant(x)` lowered as a call of the constructor fn (e.g. through map(Adt::Variant) inlined) — args in term
+    'value' : the constructor is passed around as a function value (its uses cannot be followed)"""
+    name = '%s::%s' % (adt, variant)
+    for b in mir.bodies:
+        for bb, t in b.calls():
+            if strip_generics(t.get('callee') or t.get('decl') or '') == name:
+                yield b, bb, t, 'call'
+            for a in t['args']:
+                c = a.get('const')
+                if c and strip_generics(c.get('fn') or '') == name:
+                    yield b, bb, t, 'value'
+        for i, j, s in b.stmts():
+            if s['k'] == 'assign':
+                rv = s['rv']
+                ops = []
+                if rv['k'] in ('use', 'cast'):
+                    ops = [rv['op']]
+                elif rv['k'] == 'agg':
+                    ops = rv['ops']
+                for o in ops:
+                    c = o.get('const')
+                    if c and strip_generics(c.get('fn') or '') == name:
+                        yield b, i, b.blocks[i]['term'], 'value'
